@@ -695,7 +695,7 @@ impl XmlAttribute {
     pub fn empty(name: &str, context: &Context) -> error::Result<Rc<XmlItem>> {
         let xml = format!("{}=''", name);
         let (rest, tree) = xml_parser::attribute(xml.as_str())?;
-        if rest.is_empty() {
+        if rest.is_empty() && is_qname(name) {
             XmlAttribute::node(&tree, None, context)
         } else {
             Err(error::Error::InvalidData(name.to_string()))
@@ -2396,7 +2396,7 @@ impl XmlElement {
     pub fn empty(name: &str, context: &Context) -> error::Result<Rc<XmlItem>> {
         let xml = format!("<{} />", name);
         let (rest, tree) = xml_parser::element(xml.as_str())?;
-        if rest.is_empty() {
+        if rest.is_empty() && is_qname(name) {
             XmlElement::node(&tree, None, context)
         } else {
             Err(error::Error::InvalidData(name.to_string()))
@@ -3511,7 +3511,7 @@ impl XmlProcessingInstruction {
     pub fn empty(target: &str, context: &Context) -> error::Result<Rc<XmlItem>> {
         let xml = format!("<?{}?>", target);
         let (rest, tree) = xml_parser::pi(xml.as_str())?;
-        if rest.is_empty() {
+        if rest.is_empty() && is_name(target) {
             Ok(XmlProcessingInstruction::node(&tree, None, context))
         } else {
             Err(error::Error::InvalidData(target.to_string()))
@@ -4389,6 +4389,20 @@ fn external_id(id: &parser::ExternalId) -> (String, Option<String>) {
         parser::ExternalId::Public(p, s) => (s.to_string(), Some(p.to_string())),
         parser::ExternalId::System(s) => (s.to_string(), None),
     }
+}
+
+/// Whether the whole of `value` is a Name.
+fn is_name(value: &str) -> bool {
+    let mut chars = value.chars();
+    chars
+        .next()
+        .is_some_and(xml_nom::xmlchar::is_name_start_char)
+        && chars.all(xml_nom::xmlchar::is_name_char)
+}
+
+/// Whether the whole of `value` is a QName.
+fn is_qname(value: &str) -> bool {
+    matches!(xml_nom::qname(value), Ok(("", _)))
 }
 
 fn node<T>(value: T) -> XmlNode<T> {
